@@ -44,6 +44,12 @@
 // with 0..4 wrappers per body; constant stack for n and 10n turns, the long
 // run again under a small MaxHeightPhysical, and transparency.
 //
+// A seventh family ("closure") carries closures over the loop functions' own
+// parameters (required, &optional, &rest, &key; counter and datum) from one
+// turn to later ones (collected, continuation-passing, returned, or invoked by
+// the next turn) and uses them after the parameters were rebound: every turn
+// must have its own bindings in every configuration (transparency).
+//
 // No expected value is written down except the index of the innermost handler
 // (computed from N).
 package c02
@@ -258,6 +264,16 @@ var onOff = []string{cfgOn, cfgOff}
 // estimate; the profiler and plain configurations differ from "on" by one
 // deferred call / the absence of a context and are covered at depth <= 2.)
 func plan(g group, thorough bool) []nrun {
+	if g.Family == "closure" {
+		var out []nrun
+		for _, n := range []int{0, 1, 2, 3, 10} {
+			out = append(out, nrun{N: n, Cfgs: allConfigs})
+		}
+		if thorough {
+			out = append(out, nrun{N: 100, Cfgs: allConfigs})
+		}
+		return out
+	}
 	if g.Family == "chain" {
 		n := chainTurns(g.Topo)
 		return []nrun{{N: n, Cfgs: allConfigs, Stack: true}, {N: 10 * n, Cfgs: onOff, Stack: true}}
@@ -339,7 +355,9 @@ func checkGroup(p *pool, g group, runs []nrun, each func(Case, []string, progRes
 	var hs []hp
 	for _, nr := range runs {
 		c := g.kase(nr.N)
-		c.Limit = nr.Limit
+		if nr.Limit > 0 {
+			c.Limit = nr.Limit
+		}
 		fs, pr := checkProgram(p, c, nr.Cfgs)
 		if each != nil {
 			each(c, nr.Cfgs, pr)
@@ -614,6 +632,27 @@ func makeGroups(family string, shapes [][]string) []group {
 	return gs
 }
 
+// makeClosureGroups: shapes x topology x definition style x parameter style
+// x captured parameter x carry mode.
+func makeClosureGroups(shapes [][]string) []group {
+	var gs []group
+	for _, s := range shapes {
+		for topo := 1; topo <= 3; topo++ {
+			for _, def := range []string{"", "labels"} {
+				for _, ps := range closureParams {
+					for _, cap := range closureCaptures {
+						for _, carry := range closureCarries {
+							gs = append(gs, group{Case{Family: "closure", Def: def, Shape: s, Topo: topo, Args: ps, Err: "none",
+								Capture: cap, Carry: carry}})
+						}
+					}
+				}
+			}
+		}
+	}
+	return gs
+}
+
 // makeChainGroups: chain LENGTH as the explored dimension.
 //
 //	nest  one function (thorough: also a 2-cycle) whose tail call sits under d
@@ -749,6 +788,9 @@ func run(r *core.Run) {
 		"nest":  "tail call under d nested terminal positions, every d in 1..40 (quick: if-then, let-body, funcall, the 15 positions in rotation; self recursion) / 1..80 (thorough: each of the 15 positions and the rotation; self and 2-cycle)",
 		"ring":  "k mutually tail-recursive functions, every k in 1..16 (quick) / 1..32 (thorough), bodies wrapped in the first w=0..4 of {if-then let-body cond-else progn-last} and {funcall let*-body apply or-last}",
 		"turns": "n = the multiple of k that is >= 10 and >= 2k, and 10n", "small_stack": "long run repeated under MaxHeightPhysical = short run's peak + 8"})
+	r.Bound("closure_dimensions", map[string]any{"loop_shape_depth": mfDepth, "parameter_styles": closureParams, "captured_parameter": closureCaptures,
+		"carry": closureCarries, "topologies": "self, 2-cycle, 3-cycle", "definition_styles": "defun, labels",
+		"iteration_counts": "quick 0,1,2,3,10; thorough adds 100", "Stack.MaxTailIterations": closureTailLimit})
 	r.Bound("configurations", allConfigs)
 	r.Rule("a program is every (shape, topology, argument style, error mode, N); non-trivial = it performs at least one recursive call (N>=1) and its elimination-off run stays inside the stack limits so that the transparency relation applies; distinct by source text")
 	r.Assume("elimination off = Runtime.Debugger set to an attached, never-enabled debugger; profiler = a lisp.Profiler that only counts spans")
@@ -761,6 +803,7 @@ func run(r *core.Run) {
 	r.Assume("multiform: the side call (a recursive call in the tail of a NON-last form of a multi-form body) is made with n=-100, so its activation goes straight to the base case, prints there and logs itself in g-log; the program's value is (list result g-log)")
 	r.Assume("sequence: K separate loops of n turns run on ONE runtime with Stack.MaxTailIterations >= n, and no single loop reaches the limit (measured: every loop is also run alone in a fresh runtime with elimination on and the same limit; a case where a lone loop already fails is outside the precondition, e.g. funcall>funcall 2-cycles where the funcall frame is itself a loop frame and counts 3 turns for n=2); with elimination off the limit is never consulted, hence any limit error with elimination on is a transparency violation")
 	r.Assume("chain: peak stack height and base-case depth are equal for n and 10n turns, the 10n run completes with elimination on under MaxHeightPhysical = (peak of the n run)+8, and on/off agree; the class names the kind of chain, not its length: the three smallest failing lengths are reported")
+	r.Assume("closure: every turn builds a closure over one of the function's own parameters (counter, datum, &rest list) that is used after later turns rebound the parameters (collected and invoked after the loop, continuation-passing, returned, or invoked by the next turn); runs under MaxTailIterations=5000, far above the <=100 turns, only so that a runaway continuation in a broken evaluator stops quickly")
 	r.Assume("one runtime per worker and configuration is reused for up to 256 programs (they only redefine globals); it is dropped when a run leaves frames behind, is cancelled or panics; every disagreement is re-confirmed 5x in fresh runtimes")
 	r.Assume("violations are reported minimal-shape-first: a shape that contains an already reported shape (same relation) as a subsequence is counted under subsumed_violations, not reported")
 
@@ -770,8 +813,9 @@ func run(r *core.Run) {
 		"transparency-only": byDepth(insertedShapes(1, append(append([]string{}, nontailTokens...), headTokens...))),
 		"multiform":         byDepth(tailShapes(mfDepth)),
 		"sequence":          byDepth(tailShapes(mfDepth)),
+		"closure":           byDepth(tailShapes(mfDepth)),
 	}
-	for _, f := range []string{"tail", "blocked", "transparency-only", "multiform", "sequence"} {
+	for _, f := range []string{"tail", "blocked", "transparency-only", "multiform", "sequence", "closure"} {
 		n := 0
 		for _, ss := range fam[f] {
 			n += len(ss)
@@ -791,6 +835,7 @@ func run(r *core.Run) {
 		{"sequence", 0}, {"sequence", 1}, {"sequence", 2},
 		{"multiform", 0}, {"multiform", 1}, {"multiform", 2},
 		{"chain", 0},
+		{"closure", 0}, {"closure", 1}, {"closure", 2},
 		{"blocked", 3}, {"tail", 3},
 	}
 	for _, st := range steps {
@@ -815,7 +860,9 @@ func run(r *core.Run) {
 		}
 		t0 := time.Now()
 		var gs []group
-		if st.family == "sequence" {
+		if st.family == "closure" {
+			gs = makeClosureGroups(shapes)
+		} else if st.family == "sequence" {
 			gs = makeSeqGroups(shapes)
 		} else if st.family == "multiform" {
 			args := []string{"acc"}
